@@ -1,3 +1,4 @@
+import NimaVerif.Lemmas.NameAgree
 import NimaVerif.Lemmas.EditKeeps
 /-!
 # C08 — a rejected edit is loud and leaves the document exactly as it was
@@ -15,6 +16,8 @@ set — both decidable, both invariants of every operation: `wf_preserved`), `Op
 All statements quantify over every document, path text, value and history.
 -/
 namespace Nima.C08
+-- name tokens are compared by spelling in this file (see `NameCmp` in Model/Edit.lean)
+attribute [local instance] NameCmp.spelled
 
 open Nima Nima.Node Nima.EditM Nima.EditFail
 
@@ -314,5 +317,58 @@ example : setValue "@@v".toList (.one (.atom "3".toList)) exLet = (.error .value
 example : (runOps [.rm "zz".toList, .set "x".toList (.one (.atom "7".toList)),
     .set "x.y".toList (.one (.atom "3".toList)), .rm "a.b".toList, .rm "x.y".toList] exDoc).map (·.1) =
     [.error .key, .ok (), .error .value, .ok (), .error .value] := rfl
+
+/-! ## For the repaired code (`NameCmp.model`, i.e. lookups through `_same_attr_name`)
+
+Everything above is stated for the name comparison by spelling (`NameCmp.spelled`, declared at the head
+of this file). `setValue_model_eq_spelled` / `removeValue_model_eq_spelled` (Lemmas/NameAgree.lean) make
+it a statement about the model of the repaired code under the decidable side condition
+`NameAgree.noSpellingClash d p`: among the name tokens of the document and the keys of the path no two are
+different spellings of one Nix name. The single-operation theorems restated that way (hypotheses about
+lookups keep the comparison by spelling, which is the code's on such inputs): -/
+
+theorem repaired_set_is_spelled (p : Text) (v : ValueArg) (d : Doc) (hns : NameAgree.noSpellingClash d p) :
+    @setValue NameCmp.model p v d = setValue p v d := NameAgree.setValue_model_eq_spelled p v d hns
+
+theorem repaired_rm_is_spelled (p : Text) (d : Doc) (hns : NameAgree.noSpellingClash d p) :
+    @removeValue NameCmp.model p d = removeValue p d := NameAgree.removeValue_model_eq_spelled p d hns
+
+theorem set_fail_unchanged_repaired (d : Doc) (p : Text) (v : ValueArg) (e : Err) (d' : Doc)
+    (hwf : WF d) (h : @setValue NameCmp.model p v d = (.error e, d'))
+    (hns : NameAgree.noSpellingClash d p) : d.same d' := by
+  simp only [NameAgree.setValue_model_eq_spelled p _ d hns, NameAgree.removeValue_model_eq_spelled p d hns] at *
+  exact set_fail_unchanged d p v e d' hwf h
+
+theorem rm_fail_unchanged_repaired (d : Doc) (p : Text) (e : Err) (d' : Doc)
+    (hwf : WF d) (h : @removeValue NameCmp.model p d = (.error e, d'))
+    (hns : NameAgree.noSpellingClash d p) : d.same d' := by
+  simp only [NameAgree.setValue_model_eq_spelled p _ d hns, NameAgree.removeValue_model_eq_spelled p d hns] at *
+  exact rm_fail_unchanged d p e d' hwf h
+
+theorem set_fail_exact_repaired (d : Doc) (p : Text) (v : ValueArg) (e : Err) (d' : Doc)
+    (hp : p.head? ≠ some '@') (h : @setValue NameCmp.model p v d = (.error e, d'))
+    (hns : NameAgree.noSpellingClash d p) : d' = d := by
+  simp only [NameAgree.setValue_model_eq_spelled p _ d hns, NameAgree.removeValue_model_eq_spelled p d hns] at *
+  exact set_fail_exact d p v e d' hp h
+
+theorem rm_fail_exact_repaired (d : Doc) (p : Text) (e : Err) (d' : Doc)
+    (hp : p.head? ≠ some '@') (h : @removeValue NameCmp.model p d = (.error e, d'))
+    (hns : NameAgree.noSpellingClash d p) : d' = d := by
+  simp only [NameAgree.setValue_model_eq_spelled p _ d hns, NameAgree.removeValue_model_eq_spelled p d hns] at *
+  exact rm_fail_exact d p e d' hp h
+
+theorem error_class_partial_repaired (d : Doc) (p : Text) (v : ValueArg) (e : Err) (d' : Doc)
+    (hwf : WF d) (hres : d.noTarget ≠ some .resolution)
+    (h : @setValue NameCmp.model p v d = (.error e, d'))
+    (hns : NameAgree.noSpellingClash d p) : e = .key ∨ e = .value := by
+  simp only [NameAgree.setValue_model_eq_spelled p _ d hns, NameAgree.removeValue_model_eq_spelled p d hns] at *
+  exact error_class_partial d p v e d' hwf hres h
+
+theorem rm_error_class_partial_repaired (d : Doc) (p : Text) (e : Err) (d' : Doc)
+    (hwf : WF d) (hres : d.noTarget ≠ some .resolution)
+    (h : @removeValue NameCmp.model p d = (.error e, d'))
+    (hns : NameAgree.noSpellingClash d p) : e = .key ∨ e = .value := by
+  simp only [NameAgree.setValue_model_eq_spelled p _ d hns, NameAgree.removeValue_model_eq_spelled p d hns] at *
+  exact rm_error_class_partial d p e d' hwf hres h
 
 end Nima.C08
